@@ -100,6 +100,29 @@ def gen_case(seed, idx, tier="quick"):
     cfg = TIERS[tier]
     ncoll = rng.choice([1, 1, 2])
     colls = [gen_collection(rng, c) for c in range(ncoll)]
+    # "strain twins": the same annotation on a sequence with other bases (other start / stop codon status), either as
+    # an earlier collection of the same call or exported by an earlier call in the same process
+    twins = []
+    if rng.random() < 0.45:
+        for c in colls[:1]:
+            t = copy.deepcopy(c)
+            seq = t["parent"]["genome"]["seq"].translate(str.maketrans("ACGT", "CATG"))
+            for g in t["genes"]:
+                for tx in g["transcripts"]:
+                    if tx.get("cds_starts"):
+                        seq = specs.plant_orf(seq, tx, rng, p_start=0.5, p_stop=0.5, start_codons=("ATG", "TTG", "ATA", "GTG"))
+            t["parent"]["genome"]["seq"] = seq
+            t["sequence_name"] = t["parent"]["genome"]["id"] = "strainB"
+            for g in t["genes"]:
+                g["sequence_name"] = "strainB"
+                for tx in g["transcripts"]:
+                    tx["sequence_name"] = "strainB"
+            twins.append(t)
+    prior = []
+    if twins and rng.random() < 0.5:
+        colls = twins + colls if rng.random() < 0.6 else colls + twins
+    elif twins:
+        prior = twins
     seeds = cfg["node_seeds"]
     a = rng.choice(seeds)
     b = rng.choice([s for s in seeds if s != a] or seeds)
@@ -117,7 +140,7 @@ def gen_case(seed, idx, tier="quick"):
     if rng.random() < 0.15:
         args["submitter_lab_name"] = None
     perturb = rng.choice([["seed", rng.randint(0, 10 ** 6)], ["draw", rng.randint(1, 50)], ["seed", 0], ["none"]])
-    return {"specs": colls, "args": args, "hs_a": a, "hs_b": b, "perturb": perturb, "faults": rng.random() < cfg["fault_p"],
+    return {"specs": colls, "prior": prior, "args": args, "hs_a": a, "hs_b": b, "perturb": perturb, "faults": rng.random() < cfg["fault_p"],
             # the simulator owns the process-global PRNG: its state at the start of every request is part of the case
             "prior_state": ["seed", rng.randint(0, 10 ** 6)]}
 
@@ -162,6 +185,14 @@ def h_export(req):
         colls = [build.build_collection(s)[0] for s in req["specs"]]
     except Exception as e:
         return {"build_error": type(e).__name__}
+    if req.get("prior"):
+        # an earlier, unrelated call in the same process (another caller exported a strain twin); its output is discarded
+        try:
+            pcolls = [build.build_collection(s)[0] for s in req["prior"]]
+            _export(pcolls, req["args"], simdisk.SimWriter())
+            out["prior_exported"] = True
+        except Exception as e:
+            out["prior_error"] = type(e).__name__
     _perturb(req.get("prior_state", ["none"]))
     w = simdisk.SimWriter()
     try:
@@ -429,7 +460,7 @@ def check_text(text, case):
 def run_case(case):
     nd = node.nodes()
     req = {"op": "c17.export", "specs": case["specs"], "args": case["args"], "perturb": case["perturb"], "faults": case["faults"],
-           "prior_state": case.get("prior_state", ["none"])}
+           "prior_state": case.get("prior_state", ["none"]), "prior": case.get("prior") or []}
     a = nd.call(case["hs_a"], req)
     stats = collections.Counter()
     fs = []
@@ -442,6 +473,8 @@ def run_case(case):
     t1 = "".join(a["t1"])
     stats["exports"] += 1
     stats["hashseed_differs"] += 1
+    stats["prior_export_in_same_process"] += int(bool(a.get("prior_exported")))
+    stats["strain_twin_in_same_call"] += int(any(sp["sequence_name"] == "strainB" for sp in case["specs"]))
     stats["prng_perturb_" + case["perturb"][0]] += 1
     stats["flavor_" + case["args"]["genbank_flavor"]] += 1
     stats["table_" + case["args"]["translation_table"]] += 1
@@ -666,6 +699,8 @@ def evidence(agg, tier, seed, wall, batches):
             "max_writes_per_file_W": st["write_fault_indices_max"],
             "prng_perturb(reseed)": st["prng_perturb_seed"], "prng_perturb(draw)": st["prng_perturb_draw"], "prng_perturb(none)": st["prng_perturb_none"],
             "hashseed(second node differs)": st["hashseed_differs"],
+            "earlier_export_of_a_strain_twin_in_the_same_process": st["prior_export_in_same_process"],
+            "strain_twin_collection_in_the_same_call": st["strain_twin_in_same_call"],
         },
         "reach_probes": {
             "genes": st["genes"], "coding_transcripts": st["coding_tx"], "minus_strand_multi_block_cds": st["minus_multiblock_cds"],
